@@ -54,3 +54,32 @@ package indexer
 //@   loop 2 invariant forall g uint64 :: has(i.blockHeightToBlock, g) == entry(2, has(i.blockHeightToBlock, g)) && i.blockHeightToBlock[g] == entry(2, i.blockHeightToBlock[g])
 //@   ensures i.lastHeight == blk.Block.Hght && has(i.blockHeightToBlock, blk.Block.Hght) && i.blockHeightToBlock[blk.Block.Hght] == blk
 //@   ensures RI(i)
+
+// lookups answer from the window (C31): a height is served iff it is cached -- hence, with RI, only
+// heights in (last - window, last] -- and the latest block is the one at lastHeight
+//@ func (*Indexer).GetBlockByHeight props C31
+//@   opt monitor i.mu
+//@   ensures (err == nil) == has(i.blockHeightToBlock, height)
+//@   ensures err == nil ==> result0 == i.blockHeightToBlock[height]
+//@ func (*Indexer).GetLatestBlock props C31
+//@   opt monitor i.mu
+//@   ensures err == nil ==> i.lastHeight != MAX && has(i.blockHeightToBlock, i.lastHeight) && result0 == i.blockHeightToBlock[i.lastHeight]
+//@   ensures i.lastHeight == MAX ==> err == database.ErrNotFound
+//@ func (*Indexer).GetBlock props C31
+//@   opt monitor i.mu
+//@   ensures err == nil ==> has(i.blockIDToHeight, blkID) && has(i.blockHeightToBlock, i.blockIDToHeight[blkID]) && result0 == i.blockHeightToBlock[i.blockIDToHeight[blkID]]
+//@   ensures !has(i.blockIDToHeight, blkID) ==> err != nil
+
+// the block is persisted under its own height and only the record of height-window is deleted
+//@ spec func bkey(h int) bytes = str(blockEntryKey(h))
+//@ func blockEntryKey props C31
+//@   pure
+//@   ensures len(result) == 9 && result[0] == blockEntryByte && be64(result, 1) == height
+//@ func github.com/ava-labs/hypersdk/chain.(*ExecutedBlock).Marshal
+//@   pure
+//@ func (*Indexer).storeBlock props C31
+//@   requires !isnil(blk.Block)
+//@   modifies dbmap(i.blockDB)[]
+//@   ensures err == nil ==> has(dbmap(i.blockDB), bkey(blk.Block.Hght)) || (blk.Block.Hght - i.blockWindow) % 18446744073709551616 == blk.Block.Hght
+//@   ensures forall q string :: q != bkey(blk.Block.Hght) && q != bkey((blk.Block.Hght - i.blockWindow) % 18446744073709551616) ==> has(dbmap(i.blockDB), q) == old(has(dbmap(i.blockDB), q)) && dbmap(i.blockDB)[q] == old(dbmap(i.blockDB)[q])
+//@   ensures err != nil ==> dbmap(i.blockDB) == old(dbmap(i.blockDB))
